@@ -448,7 +448,7 @@ func (h *harness) replay() error {
 		h.c.Violate(sig, fmt.Sprintf("replayed: the optimized plan fails: %v", O.Err), w)
 		return nil
 	}
-	if ok, why := compare(mode, U.Rows, O.Rows); !ok {
+	if ok, why := compareCls(mode, w.Cls, U.Rows, O.Rows); !ok {
 		h.c.Violate(sig, "replayed: "+why, w)
 	} else {
 		fmt.Println("the optimized plan and the plan as analyzed agree on this witness now")
